@@ -211,10 +211,10 @@ def marathon_oracle(case: dict):
 
 
 STREAMS = {
-    "history": Stream("history", machine=(config_strategy, step_strategy, Runner), quick=1200, thorough=40000, shards_quick=16, shards_thorough=16,
+    "history": Stream("history", machine=(config_strategy, step_strategy, Runner), quick=1200, thorough=10000, shards_quick=16, shards_thorough=16,
                       max_steps=15, max_steps_thorough=30),
-    "many_blocks": Stream("many_blocks", machine=(config_strategy_many, step_strategy, ManyBlocksRunner), quick=160, thorough=4000, shards_quick=16, shards_thorough=16,
+    "many_blocks": Stream("many_blocks", machine=(config_strategy_many, step_strategy, ManyBlocksRunner), quick=160, thorough=1200, shards_quick=16, shards_thorough=16,
                           max_steps=8, max_steps_thorough=12),
-    "marathon": Stream("marathon", oracle=marathon_oracle, strategy=lambda: _marathon_strategy(MARATHON_N_QUICK), quick=32, thorough=480, shards_quick=8, shards_thorough=16),
-    "marathon_long": Stream("marathon_long", oracle=marathon_oracle, strategy=lambda: _marathon_strategy(MARATHON_N_THOROUGH), quick=0, thorough=96, shards_quick=16, shards_thorough=16),
+    "marathon": Stream("marathon", oracle=marathon_oracle, strategy=lambda: _marathon_strategy(MARATHON_N_QUICK), quick=32, thorough=240, shards_quick=8, shards_thorough=16),
+    "marathon_long": Stream("marathon_long", oracle=marathon_oracle, strategy=lambda: _marathon_strategy(MARATHON_N_THOROUGH), quick=0, thorough=48, shards_quick=16, shards_thorough=16),
 }
